@@ -397,3 +397,38 @@ pub fn export_all_slots(p: &Prog) -> (Prog, std::collections::HashMap<i64, i64>)
     ssa.extend(p.ssa.iter().cloned());
     (Prog { ssa, nvars: p.nvars }, map)
 }
+
+
+/// Step-by-step events of the real `RegisterAllocator<N>` on an SSA program (input of Trace_Alloc.tla): every prefix of
+/// the tape is fed to a fresh allocator, which is then finalized; because the allocator only appends to its tape, the ops
+/// it emitted for the last SSA op of the prefix are the tail of that tape.  A panic of the allocator is an event too.
+pub fn alloc_events<const N: usize>(id: usize, ssa: &[GOp]) -> Vec<serde_json::Value> {
+    use fidget_core::compiler::RegisterAllocator;
+    let ops: Vec<SsaOp> = ssa.iter().map(ssa_op).collect();
+    let mut evs = vec![json!({"e": "reset", "id": id, "n": N})];
+    let mut prev = 0usize;
+    for k in 1..=ops.len() {
+        let r = crate::catch(std::panic::AssertUnwindSafe(|| {
+            let mut a = RegisterAllocator::<N>::new(ops.len());
+            for op in &ops[..k] {
+                a.op(*op);
+            }
+            a.finalize()
+        }));
+        match r {
+            Ok(t) => {
+                let v = Value::serialized(&t).unwrap();
+                let Value::Array(arr) = field(&v, "tape") else { panic!("tape") };
+                let all: Vec<GOp> = arr.iter().map(gop_of_value).collect();
+                let em = &all[prev.min(all.len())..];
+                evs.push(json!({"e": "op", "id": id, "k": k, "op": ssa[k - 1].json(), "em": ops_json(em), "slots": t.slot_count(), "panic": false}));
+                prev = all.len();
+            }
+            Err(_) => {
+                evs.push(json!({"e": "op", "id": id, "k": k, "op": ssa[k - 1].json(), "em": [], "slots": 0, "panic": true}));
+                break;
+            }
+        }
+    }
+    evs
+}
